@@ -764,8 +764,25 @@ def proj_C09(lhs, o, t):
 def proj_C10(lhs, o, t):
     f = io_fields(lhs)
     return (tuple(o.get("outs", [])), o.get("reads")) if f["kind"] in ("R", "AR") else ()
-def oracle_io_basic(lhs, o, t):
+def oracle_io_basic(lhs, o, t, om=None):
     if o["cls"] in ("PANIC", "MEMFAULT"): return f"the harness case ended with {o['cls']} (call budget exhausted = the call never returns)"
+    return None
+def oracle_C10(lhs, o, t, om=None):
+    w = oracle_io_basic(lhs, o, t)
+    if w or not om or lhs.split(" ")[0] not in ("R", "AR"): return w
+    # `hard_final` / `C10_stream_goes_bad`: once the bytes received hold a content error, no further input changes it. The model
+    # (for which this is proved) names the call and the number of reads at which that happens; an implementation that answers
+    # that call with something else after reading further has asked for more input on a complete, malformed message.
+    mo, io = om.get("outs", []), o.get("outs", [])
+    for j, x in enumerate(mo):
+        if x.startswith("parse:") and "insufficientSize" not in x:
+            if mo[:j] == io[:j] and (len(io) <= j or not io[j].startswith("parse:")):
+                try: extra = int(o.get("reads", 0)) - int(om.get("reads", 0))
+                except ValueError: extra = 0
+                if extra > 0:
+                    return (f"call {j + 1}: the bytes received held a complete message that is malformed in content ({x}); recv answered "
+                            f"{io[j] if len(io) > j else 'nothing'} after {extra} further read(s) instead of the parse error")
+            break
     return None
 def post_io(props_kind):
     """block oracles: a block = the lines up to a `W` line, which carries the sent sequence (sizes and contents)"""
@@ -1025,7 +1042,7 @@ PROPS = {
     "C07": dict(module="FV.Props.C07", theorems=["FV.Props.C07_sender_delivers", "FV.Props.C07_receiver_delivers"], suites=["io"], proj=proj_C07, oracle=oracle_io_basic, post=post_io("C07")),
     "C08": dict(module="FV.Props.C08", theorems=["FV.Props.C08_sender_refines_blocking", "FV.Props.C08_receiver_refines_blocking", "FV.Props.C08_pipe_fifo"], suites=["aio"], proj=proj_C08, oracle=oracle_io_basic, post=post_io("C08")),
     "C09": dict(module="FV.Props.C09", theorems=["FV.Props.C09_send_fault", "FV.Props.C09_session_sink_shape", "FV.Props.C09_read_error_keeps_bytes", "FV.Props.C09_receiver_retries_deliver"], suites=["io", "aio"], proj=proj_C09, oracle=oracle_io_basic, post=post_io("C09")),
-    "C10": dict(module="FV.Props.C10", theorems=["FV.Props.C10_recv_never_faults", "FV.Props.C10_flex_bad_offset_is_content_error", "FV.Props.C10_content_error_is_final", "FV.Props.C10_stream_goes_bad"], suites=["io", "aio"], proj=proj_C10, oracle=oracle_io_basic, post=post_io("C10")),
+    "C10": dict(module="FV.Props.C10", theorems=["FV.Props.C10_recv_never_faults", "FV.Props.C10_flex_bad_offset_is_content_error", "FV.Props.C10_content_error_is_final", "FV.Props.C10_stream_goes_bad"], suites=["io", "aio"], proj=proj_C10, oracle=oracle_C10, post=post_io("C10")),
     "C16": dict(module="FV.Props.C16", theorems=["FV.Props.C16_size", "FV.Props.C16_byte_order", "FV.Props.C16_native_roundtrip", "FV.Props.C16_bytes_roundtrip", "FV.Props.C16_eq_iff", "FV.Props.C16_delegates", "FV.Props.C16_bool_validate"], suites=["portable"], proj=proj_C16, oracle=oracle_C16),
     "C17": dict(module="FV.Props.C17Ser", theorems=["FV.Props.C17_align_one", "FV.Props.C17_no_padding", "FV.Props.C17_image_is_serialisation", "FV.emplaceU_ser", "FV.flexFill_ser"], suites=["emplace", "bytes"], proj=proj_C17, oracle=oracle_C17, post=post_C17),
     "C19": dict(module="FV.Props.C19", theorems=["FV.Props.C19_bool", "FV.Props.C19_tag", "FV.Props.C19_fields", "FV.Props.C19_array", "FV.Props.C19_vec_elems", "FV.Props.C19_enum_payload", "FV.Props.C19_flex_items"], suites=["bytes"], proj=proj_C19, oracle=oracle_C19),
